@@ -75,8 +75,11 @@ func (f *GitFilter) Smudge(writer io.Writer, ptr *Pointer, workingfile string, d
 	if statErr == nil && stat != nil {
 		fileSize := stat.Size()
 		if fileSize != ptr.Size {
-			tracerx.Printf("Removing %s, size %d is invalid", mediafile, fileSize)
-			os.RemoveAll(mediafile)
+			// Not what this pointer describes. The file is left
+			// where it is: a download replaces it, and it may
+			// well be the object - it is the pointer's size
+			// line that may be wrong.
+			tracerx.Printf("Not using %s, size %d is invalid", mediafile, fileSize)
 			stat = nil
 		}
 	}
